@@ -151,11 +151,11 @@ def run(ctx):
     rng = ctx.rng
     inputs = []
     for cls in instances.classes():
-        for _ in range(3 if ctx.thorough else 1):
+        for _ in range(2 if ctx.thorough else 1):
             r = instances.make(rng, cls)
             if r is not None:
                 inputs.append((cls, r[0]))
-    for _ in range(60 if ctx.thorough else 10):
+    for _ in range(30 if ctx.thorough else 10):
         g, cmds = smtgen.gen_script(rng, nasserts=rng.choice([1, 2]), depth=2)
         inputs.append(('random', smtgen.script_text(cmds)))
     # hand-written seeds around known cycle shapes (kept in the corpus so a regression is reported again)
@@ -170,7 +170,7 @@ def run(ctx):
                ('corpus', '(set-logic ALL)\n(define-fun f () Int g)\n(define-fun g () Int f)\n(assert (= f 0))\n(check-sat)\n'),
                ('corpus', '(set-logic ALL)\n(define-fun f ((x Int)) Int (+ 1 (f x)))\n(assert (= (f 1) 0))\n(check-sat)\n'),
                ('corpus', '(set-logic ALL)\n(define-fun w () (_ BitVec 8) ((_ zero_extend 0) w))\n(assert (= w #x00))\n(check-sat)\n')]
-    budget = 40 if ctx.thorough else 12
+    budget = 24 if ctx.thorough else 12
     tot = dict(proposals=0, explored=0)
     for cls, text in inputs:
         exprs = impl.parse(text)
@@ -198,7 +198,7 @@ def run(ctx):
         for _ in range(depth):
             t = f'({op} {t} {extra})' if first else f'({op} {extra} {t})'
         return t
-    D = 60 if ctx.thorough else 36
+    D = 48 if ctx.thorough else 36
     nests = []
     for inner in ('(f x)', 'u', '(let ((k x)) k)', 'x'):
         for op, extra in (('+', '1'), ('-', ''), ('*', '2'), ('bvadd', '#b0001'), ('and', 'true'), ('ite c', 'x'), ('str.++', '"a"'), ('=', 'x')):
@@ -207,7 +207,7 @@ def run(ctx):
                              + chain(op, D, inner, first, extra) + ' x))\n(check-sat)\n')
     rng.shuffle(nests)
     slow = 0
-    for text in nests[:(len(nests) if ctx.thorough else 16)]:
+    for text in nests[:(40 if ctx.thorough else 16)]:
         exprs = impl.parse(text)
         t0 = time.time()
         n = 0
